@@ -3,7 +3,7 @@
 From Coq Require Import Lia String.
 From MV Require Import Base.Prelude Base.SymHash Gen.Consts.
 From MV Require C04.Model C04.PMInj.
-From MV Require Import C09.Model C09.MmrProofs C11.Model.
+From MV Require Import C09.Model C09.MmrProofs C09.RawLeaf C11.Model.
 Open Scope N_scope.
 
 (* ------------------------------------------------------------------ decimal *)
@@ -194,7 +194,7 @@ Qed.
 
 (* ------------------------------------------------------------------ set proofs *)
 Lemma set_verify_spec leaves p : set_verify leaves p = true ->
-  map_verify p = true /\ forall l, In l leaves -> map_contains p (BLit l) = true.
+  map_verify_b p = true /\ forall l, In l leaves -> map_contains_b p (BLit l) = true.
 Proof.
   unfold set_verify. intros H. apply andb_true_iff in H. destruct H as [Hv Hc].
   split; [exact Hv|]. rewrite forallb_forall in Hc. exact Hc.
@@ -202,14 +202,14 @@ Qed.
 
 Lemma lverify_loop_sound : forall ps root res, lverify_loop ps root = Ok res ->
   (forall r0, root = Some r0 -> res = Some r0) /\
-  (forall p, In p ps -> exists pr, lp_proof p = Some pr /\ set_verify (lp_hashes p) pr = true /\ res = Some (map_root pr)).
+  (forall p, In p ps -> exists pr, lp_proof p = Some pr /\ set_verify (lp_hashes p) pr = true /\ res = Some (root_bytes pr)).
 Proof.
   induction ps as [|p ps IH]; intros root res H; cbn [lverify_loop] in H.
   - injection H as <-. split; [intros r0 ->; reflexivity | intros p []].
   - destruct (lp_proof p) as [pr|] eqn:Ep; [|discriminate].
     destruct (set_verify (lp_hashes p) pr) eqn:Ev; [|discriminate].
     destruct root as [r0|].
-    + destruct (bt_eqb r0 (map_root pr)) eqn:Eb; [|discriminate].
+    + destruct (bt_eqb r0 (root_bytes pr)) eqn:Eb; [|discriminate].
       apply bt_eqb_eq in Eb. destruct (IH _ _ H) as [H1 H2]. split; [exact H1|].
       intros q [<-|Hq]; [|apply H2; exact Hq].
       exists pr. split; [exact Ep|]. split; [exact Ev|]. rewrite <- Eb. apply H1. reflexivity.
@@ -223,7 +223,7 @@ Theorem lverify_sound m v : lverify m = Ok v ->
   v_lbn v = lm_lbn m /\ v_off v = None /\
   forall i, In i (v_items v) -> exists h part pr,
     i = IHash h /\ In part (lm_parts m) /\ In h (lp_hashes part) /\ lp_proof part = Some pr /\
-    map_verify pr = true /\ map_root pr = v_root v /\ map_contains pr (BLit (leaf i)) = true.
+    map_verify_b pr = true /\ root_bytes pr = v_root v /\ map_contains_b pr (BLit (leaf i)) = true.
 Proof.
   unfold lverify. destruct (lverify_loop (lm_parts m) None) as [[root|]| |] eqn:E; try discriminate.
   intros H. injection H as <-. cbn [v_lbn v_off v_items v_root]. split; [reflexivity|]. split; [reflexivity|].
@@ -238,8 +238,8 @@ Qed.
 
 Theorem v2verify_sound m v : v2verify m = Ok v ->
   v_lbn v = v2_lbn m /\ v_off v = Some (v2_off m) /\
-  exists pr, v2_part m = Some (v_items v, Some pr) /\ map_verify pr = true /\ map_root pr = v_root v /\
-    forall i, In i (v_items v) -> map_contains pr (BLit (leaf i)) = true.
+  exists pr, v2_part m = Some (v_items v, Some pr) /\ map_verify_b pr = true /\ root_bytes pr = v_root v /\
+    forall i, In i (v_items v) -> map_contains_b pr (BLit (leaf i)) = true.
 Proof.
   unfold v2verify. destruct (v2_part m) as [[items [pr|]]|] eqn:E; try discriminate.
   destruct (set_verify (map leaf items) pr) eqn:Ev; [|discriminate].
@@ -248,9 +248,10 @@ Proof.
   exists pr. repeat split; try assumption. intros i Hi. apply Hc. apply in_map. exact Hi.
 Qed.
 
-(* one statement for both formats *)
+(* one statement for both formats: a proof that verifies (byte-faithfully), whose root BYTES are
+   the root of the result, and that contains the item's leaf bytes *)
 Definition vouched (v : verified) (i : item) : Prop :=
-  exists pr, map_verify pr = true /\ map_root pr = v_root v /\ map_contains pr (BLit (leaf i)) = true.
+  exists pr, map_verify_b pr = true /\ root_bytes pr = v_root v /\ map_contains_b pr (BLit (leaf i)) = true.
 
 Theorem tx_sound_legacy m v : lverify m = Ok v -> forall i, In i (v_items v) -> vouched v i.
 Proof.
@@ -266,24 +267,6 @@ Qed.
 (* with C09's soundness: under the committed root of a chain, a vouched item is a committed leaf *)
 Definition chain_ranges (rs : list (N * N * list item)) : list (list N * list bt) :=
   map (fun r => (range_key (fst (fst r)) (snd (fst r)), map (fun i => BLit (leaf i)) (snd r))) rs.
-
-Theorem vouched_committed rs ms v i :
-  master_leaves (chain_ranges rs) = Some ms -> mmr_root ms = Some (v_root v) ->
-  wf_item i -> vouched v i ->
-  exists r, In r rs /\ In (leaf i) (map leaf (snd r)).
-Proof.
-  intros Hms Hr W [pr [Hv [Hroot Hc]]].
-  assert (Hat : forall k xs, In (k, xs) (chain_ranges rs) -> forall l, In l xs -> atom l).
-  { intros k xs Hin l Hl. unfold chain_ranges in Hin. apply in_map_iff in Hin. destruct Hin as [r [E _]].
-    injection E as _ <-. apply in_map_iff in Hl. destruct Hl as [j [<- _]]. apply atom_BLit. }
-  rewrite <- Hroot in Hr.
-  destruct (map_sound_committed _ _ _ _ Hat Hms Hr Hv Hc (atom_BLit _)) as [[k [xs [Hin E]]] | [k [xs [Hin Hx]]]].
-  - exfalso. unfold chain_ranges in Hin. apply in_map_iff in Hin. destruct Hin as [r [Er _]].
-    injection Er as <- _. injection E as E. exact (leaf_not_key i _ _ W E).
-  - unfold chain_ranges in Hin. apply in_map_iff in Hin. destruct Hin as [r [Er Hr']].
-    injection Er as _ <-. exists r. split; [exact Hr'|].
-    apply in_map_iff in Hx. destruct Hx as [j [Ej Hj]]. injection Ej as Ej. rewrite <- Ej. apply in_map. exact Hj.
-Qed.
 
 (* ------------------------------------------------------------------ protocol message *)
 Lemma bytes_eqb_eq a b : bytes_eqb a b = true <-> a = b.
